@@ -268,9 +268,12 @@ class Check:
         """returns (rejects [(idx, what)], knowns [(idx, id)])"""
         out = res["out"]
         rejects, knowns = [], []
-        for m in re.finditer(r'<<"REJECT", (\d+), (.*)>>', out):
-            rejects.append((int(m.group(1)), m.group(2)))
-        for m in re.finditer(r'<<"KNOWN", (\d+), "([^"]+)"', out):
+        # TLC's pretty printer wraps a tuple that does not fit in 80 columns over several lines
+        # (`<< "REJECT",\n   12,\n   ...`), so white space (incl. newlines) is allowed between the elements
+        for m in re.finditer(r'<<\s*"REJECT",\s*(\d+),\s*(.*)', out):
+            what = m.group(2).strip()
+            rejects.append((int(m.group(1)), what[:-2] if what.endswith(">>") else what))
+        for m in re.finditer(r'<<\s*"KNOWN",\s*(\d+),\s*"([^"]+)"', out):
             knowns.append((int(m.group(1)), m.group(2)))
         inv = re.search(r"Error: Invariant (\w+) is violated", out)
         if inv:
@@ -457,7 +460,7 @@ def replay(plan, path):
                 f.write(json.dumps(e) + "\n")
         res = run_tlc(obj["module"], obj["cfg"], os.path.join(work, "md"), workers=1, timeout=600,
                       env_extra={"TRACE": p}, java_opts=TV_JAVA_OPTS)
-        bad = re.findall(r'<<"REJECT".*>>|Error:.*', res["out"])
+        bad = re.findall(r'<<\s*"REJECT".*|Error:.*', res["out"])
         shutil.rmtree(work, ignore_errors=True)
         if bad:
             log("\n".join(bad[:10]))
